@@ -30,7 +30,7 @@ def main(argv=None):
     argv = argv if argv is not None else sys.argv[1:]
     histories = int(argv[0]) if argv else 120
     seeds = [int(x) for x in argv[1:]] or [1, 20261003]
-    configs = [(16, 0), (4, 7), (1, 123), (16, 99)]
+    configs = [(16, 0), (4, 7), (16, 99)] if os.environ.get("SELFTEST_FAST") else [(16, 0), (4, 7), (1, 123), (16, 99)]
     bad = 0
     d = tempfile.mkdtemp(prefix="pcsim-selftest-")
     for prop in ("C09", "C10", "C20"):
